@@ -263,6 +263,21 @@ def scoping_rules(chk, P, only=None, exclude=()):
             good = any(x[0] == "call" and x[1] == "FramedSet::contains" and x[2][:2] == ("self.vars", "Parser::text(self, try(Parser::get(self)))") and x[3] is False for x in g) \
                 and any(x[0] == "call" and x[1] == "Parser::at" and x[3] is False and "LParen" in x[2][1] for x in g)
         chk.require(good, "GUARD", "GUARD:parse_factor:read-recorded-iff-not-a-variable", "expected_outputs.entry(name) iff !vars.contains(name) and not followed by '('", "parse_factor records reads as %s" % ent)
+        # exact table of the plain-identifier branch: (facts other than token kinds) -> (read recorded?, result)
+        entb = set(bb for bb, _ in ent)
+        rows = set()
+        for pi in tab.paths(P, pf, to_return_only=True):
+            fs = tab.path_facts(pi)
+            if not any(f[0].startswith("variant(") and f[1] == ("Ident",) for f in fs):
+                continue
+            other = frozenset(f for f in fs if not f[0].startswith("variant("))
+            if ("Parser::at(self, TokenKind::LParen{})", False) not in other:
+                continue
+            rows.add((other, any(bb in entb for bb in pi.path), ordrules.ret_shape(pi), re.sub(r"\{.*", "", canon(pi.ret())) if ordrules.ret_shape(pi) == "Ok" else ""))
+        CT = "FramedSet::contains(self.vars, Parser::text(self, try(Parser::get(self))))"
+        AT = ("Parser::at(self, TokenKind::LParen{})", False)
+        want_rows = {(frozenset([AT, (CT, True)]), False, "Ok", "Result::Ok"), (frozenset([AT, (CT, False)]), True, "Ok", "Result::Ok")}
+        chk.require(rows == want_rows, "TAB", "TAB:parse_factor:read-recorded-exact", "plain identifier: recorded as an output read exactly when no variable of that name is in scope; no other condition; always Ok(Variable)", "plain-identifier branch of parse_factor behaves as %s" % sorted(rows, key=str))
         # and the Variable node is built on both edges (recorded or not)
     chk.floor("PAIR", "statement arms with scope traces", len(arms), 5)
 
